@@ -393,6 +393,11 @@ func init() {
 	regInv("github.com/cosmos/cosmos-sdk/codec.BinaryCodec.MarshalInterface", func(p *preCall) Val { return p.fr.marshal(p, true) })
 	regInv("github.com/cosmos/cosmos-sdk/codec.BinaryCodec.MustUnmarshal", func(p *preCall) Val { return p.fr.unmarshal(p, false) })
 	regInv("github.com/cosmos/cosmos-sdk/codec.BinaryCodec.Unmarshal", func(p *preCall) Val { return p.fr.unmarshal(p, true) })
+	for _, recv := range []string{"(*github.com/cosmos/cosmos-sdk/codec.ProtoCodec)", "(*github.com/cosmos/cosmos-sdk/codec.LegacyAmino)"} {
+		regW(recv+".UnmarshalJSON", func(p *preCall) Val { p.name = "UnmarshalJSON"; return p.fr.unmarshal(p, true) })
+		reg(recv+".MustMarshalJSON", func(p *preCall) Val { p.name = "MustMarshalJSON"; return p.fr.marshal(p, false) })
+		reg(recv+".MarshalJSON", func(p *preCall) Val { p.name = "MarshalJSON"; return p.fr.marshal(p, true) })
+	}
 	// codec.Codec embeds BinaryCodec
 	regInv("github.com/cosmos/cosmos-sdk/codec.Codec.MustMarshal", func(p *preCall) Val { return p.fr.marshal(p, false) })
 	regInv("github.com/cosmos/cosmos-sdk/codec.Codec.Marshal", func(p *preCall) Val { return p.fr.marshal(p, true) })
@@ -463,6 +468,16 @@ func (fr *Frame) marshal(p *preCall, withErr bool) Val {
 	if _, ok := obj.Typ.Underlying().(*types.Pointer); ok {
 		v = fc.load(p.st, obj)
 	}
+	if strings.HasSuffix(p.name, "JSON") {
+		// JSON encoding: a deterministic function of the message (no inverse is assumed)
+		jfn := "marshaljson_" + sanitize(v.S)
+		fc.B.DeclFun(jfn, []string{v.S}, "String")
+		bz := bytesVal("(mkB false (" + jfn + " " + v.T + "))")
+		if withErr {
+			return tup(bz, errNil())
+		}
+		return bz
+	}
 	fn := "marshal_" + sanitize(v.S)
 	un := "unmarshal_" + sanitize(v.S)
 	fc.B.DeclFun(fn, []string{v.S}, "String")
@@ -500,15 +515,24 @@ func (fr *Frame) unmarshal(p *preCall, withErr bool) Val {
 	s := fc.B.SortOf(elem)
 	fn := "marshal_" + sanitize(s)
 	un := "unmarshal_" + sanitize(s)
-	fc.B.DeclFun(fn, []string{s}, "String")
-	fc.B.DeclFun(un, []string{"String"}, s)
-	fc.unmarshalEmpty(un, elem)
+	isJSON := strings.HasSuffix(p.name, "JSON")
+	if isJSON {
+		un = "unmarshaljson_" + sanitize(s)
+		fc.B.DeclFun(un, []string{"String"}, s)
+	} else {
+		fc.B.DeclFun(fn, []string{s}, "String")
+		fc.B.DeclFun(un, []string{"String"}, s)
+		fc.unmarshalEmpty(un, elem)
+	}
 	v := fc.mkVal(elem, "("+un+" "+bz+")")
 	fc.assumeWF(v, p.reach)
 	if withErr {
 		// whether decoding fails, and what a failed decoding leaves behind, are deterministic functions of the bytes
 		ef := "unmarshal_err_" + sanitize(s)
 		jf := "unmarshal_junk_" + sanitize(s)
+		if isJSON {
+			ef, jf = "unmarshaljson_err_"+sanitize(s), "unmarshaljson_junk_"+sanitize(s)
+		}
 		fc.B.DeclFun(ef, []string{"String"}, "Int")
 		fc.B.DeclFun(jf, []string{"String"}, s)
 		e := Val{S: "Int", T: "(" + ef + " " + bz + ")", Typ: types.Universe.Lookup("error").Type()}
